@@ -494,12 +494,17 @@ func (h *hist) judgeDash(k call, i, n int, length float64, lostBefore *bool) {
 		}
 		return
 	}
-	ok, idx, into, remain, di := dashAt(cur.Off, cur.Dashes)
+	// the renderers draw the pattern in units of the stroke width: judge in those units
+	scaled := make([]float64, len(cur.Dashes))
+	for j, d := range cur.Dashes {
+		scaled[j] = d * cur.Width
+	}
+	ok, idx, into, remain, di := dashAt(cur.Off*cur.Width, scaled)
 	if !ok || length < 1e-6 || math.Abs(length-remain) < 1e-7 {
 		h.c.Count("oracle-skip:dash-visibility-undecided")
 		return
 	}
-	desc := fmt.Sprintf("DrawPath with %d paths: path %d (length %g), dashes %v offset %g: the path starts %g into element %d (length %g, %g remaining)", n, i, length, cur.Dashes, cur.Off, into, idx, di, remain)
+	desc := fmt.Sprintf("DrawPath with %d paths: path %d (length %g), stroke width %g, dashes %v offset %g (in stroke widths): the path starts %g into element %d (length %g, %g remaining)", n, i, length, cur.Width, cur.Dashes, cur.Off, into, idx, di, remain)
 	legit := false
 	if strokeDropped {
 		legit = idx%2 == 1 && length <= remain // the first gap covers the whole path
@@ -1496,7 +1501,7 @@ func (h *hist) styleOp() {
 		h.paintArg("Stroke")
 	case 5:
 		name = "SetStrokeWidth"
-		w := []float64{0, 0.5, 1, 2, 4}[c.Intn(5)]
+		w := []float64{0, 0.25, 0.5, 0.5, 1, 2, 4}[c.Intn(7)]
 		h.op(fmt.Sprintf("SetStrokeWidth(%g)", w), "SW", hc.H(w))
 		h.ctx.SetStrokeWidth(w)
 		h.st.style.Width = w
